@@ -42,9 +42,9 @@ CLAIMS = {
         technique="Lean 4 proof (round-trip of a deep embedding) + two-stage compile-and-evaluate correspondence",
         engine="lean-model + t1-behaviour", ref="DESIGN.md §6 C06"),
     "C07": dict(
-        text="Lean theorems about the write/reload/retry loop over an abstract loader: a pass reads from the file on disk only the signatures of callees whose result flows into another derive call; hence without such flows the file left behind never depends on the old file (absent, stale, truncated), with flows one run reproduces the from-scratch file whenever the old file agrees on the flowing signatures; no calls left => file removed; the unrestricted statement is refuted by a concrete witness (stale flowing signature), which is known finding F7. Tied by edit histories and byte-prefix truncations of old/new outputs on the real binary, byte-compared with from-scratch runs.",
+        text="Lean theorems about the write/reload/retry loop over an abstract loader: a pass reads from the file on disk only the signatures of callees whose result flows into another derive call; hence without such flows the file left behind never depends on the old file (absent, stale, truncated), with flows one run reproduces the from-scratch file whenever the old file agrees on the flowing signatures; no calls left => file removed; the unrestricted statement is refuted by a concrete witness (stale flowing signature), which is known finding F7. Tied by edit histories and byte-prefix truncations of old/new outputs on the real binary, byte-compared with from-scratch runs, and by RUNNING the model's regen (driver op regen) next to the real binary on generated flow scenarios (chains of derive calls through variables and nested calls x old-file variants; plugin table measured on one-call packages): exit kind and every generated function's parameter and result types must agree on three runs per scenario, and the stale-signature differences (F7) must be predicted exactly.",
         note="partial: go/loader's tolerance of a broken file is the model's loader contract; F7 and F24 are recorded known findings",
-        technique="Lean 4 proof (congruence of the pass in the loaded signatures) + history/crash-state differential on the real binary",
+        technique="Lean 4 proof (congruence of the pass in the loaded signatures) + history/crash-state differential on the real binary + executable-model correspondence on flow scenarios",
         engine="lean-model + blackbox-history", ref="DESIGN.md §6 C07"),
     "C18": dict(
         text="Lean theorems about the four emitted memo shapes as state machines over the captured table, for call sequences of any length: every answer equals f's own answer whenever f respects the key comparison the emitted code makes (necessary: refuted otherwise by a witness), and f is invoked at most once per class of Equal argument tuples — for the hash-bucket shape given Equal => same hash (C04), with colliding hashes of unequal arguments handled by the scan. Tied by playing whole call sequences (repeats, Equal-but-not-identical copies, ±0, constructed hash collisions, zero-argument and no-result forms) against the real deriveMem and the model: results, f's call log and the emitted shape must match exactly.",
